@@ -11,10 +11,18 @@ searcher): random term lists with small Gaussian-integer coefficients through
 every representation vs an independent numpy reference (ordered product of
 embedded named 2x2 operators, explicit Jordan-Wigner strings, sector
 projection by lexicographic enumeration).
+Spin-chain MPO (coq/C19/SpinHam.v, SpinHamProofs.v): hand model of the array
+spin_ham_mpo_tensor writes and of SpinHam1D.build_mpo's per-site term lookup;
+theorems: over every non-commutative semiring the open / periodic chain of
+these tensors denotes sum f A_i + sum f A_i B_{i+1} (A on the left site).
+Tie: exact layout correspondence in Coq on Gaussian-integer operator arrays;
+the dense values of build_mpo / build_sparse / build_local_ham are compared
+with an explicit numpy sum (test stream).
 """
 
 import itertools
 import math
+import time
 
 import numpy as np
 
@@ -24,8 +32,14 @@ RULE = (
     "ranks: exhaustive over all ranks of all (symmetry, n, sector) up to the size bound, impl kernels vs "
     "Coq model (both directions); representations: random term lists (locality 1-4, repeated same-site "
     "operators, Gaussian-integer coefficients, JW / Pauli rewrites, site relabelling) through dense, sparse "
-    "(4 formats), matvec serial/parallel, linear operator, local terms, ikron, MPO, and symmetry sectors. "
-    "Non-trivial: sector size > 1 for ranks; term list with >= 2 terms or a same-site product for representations."
+    "(4 formats), matvec serial/parallel, linear operator, local terms, ikron, MPO, and symmetry sectors; "
+    "SpinHam1D: random default + site / bond specific term lists whose two-site operator pairs are drawn "
+    "independently (asymmetric terms), spin 1/2 and 1, named operators / qarrays / ndarrays, open and periodic, "
+    "through build_mpo, build_sparse, build_local_ham vs an explicit numpy sum, with the site tensors of "
+    "build_mpo and every (|one|, |two|, |left|, which, cyclic) of spin_ham_mpo_tensor compared exactly with the "
+    "Coq layout model on Gaussian-integer operators. "
+    "Non-trivial: sector size > 1 for ranks; term list with >= 2 terms or a same-site product for representations; "
+    "at least one two-site term for SpinHam1D."
 )
 
 OPS = {
@@ -462,7 +476,8 @@ def representations(ctx):
 
 
 def model_builders(ctx):
-    """spin-chain MPO builders vs matrix-side generators for the same model."""
+    """spin-chain MPO builders vs matrix-side generators for the same model, and the MPO_ham_* / ham_1d_*
+    families (open and periodic, spin 1/2 and 1) vs the explicit sum of embedded spin operators."""
     import quimb as qu
     import quimb.tensor as qtn
 
@@ -472,6 +487,12 @@ def model_builders(ctx):
             ("ising", lambda: qtn.MPO_ham_ising(L, j=2.0, bx=0.5), lambda: qu.ham_ising(L, jz=2.0, bx=0.5, cyclic=False)),
             ("XY", lambda: qtn.MPO_ham_XY(L, j=(1.0, 0.5), bz=0.25), lambda: qu.ham_heis(L, j=(1.0, 0.5, 0.0), b=(0.0, 0.0, 0.25), cyclic=False)),
         ]
+        if L >= 3:  # a periodic chain of 2 sites is a double bond: convention, not tested
+            pairs += [
+                ("heis:cyclic", lambda: qtn.MPO_ham_heis(L, j=(1.0, 2.0, -1.0), bz=0.5, cyclic=True), lambda: qu.ham_heis(L, j=(1.0, 2.0, -1.0), b=0.5, cyclic=True)),
+                ("ising:cyclic", lambda: qtn.MPO_ham_ising(L, j=2.0, bx=0.5, cyclic=True), lambda: qu.ham_ising(L, jz=2.0, bx=0.5, cyclic=True)),
+                ("XXZ:cyclic", lambda: qtn.tensor_builder.MPO_ham_XXZ(L, 0.5, jxy=2.0, cyclic=True), lambda: qu.ham_XXZ(L, 0.5, jxy=2.0, cyclic=True)),
+            ]
         for name, fm, fd in pairs:
             ctx.count(("model", name, L), True)
             try:
@@ -484,7 +505,53 @@ def model_builders(ctx):
             if A.shape != B.shape or not np.allclose(A, B, atol=1e-10):
                 ctx.violation(f"models:{name}", f"MPO_ham_{name}({L}) differs from ham_{name}({L})",
                               {"model": name, "L": L, "max_abs_diff": float(np.max(np.abs(A - B)))})
+    # MPO_ham_* and ham_1d_* (LocalHam1D) vs the explicit sum, random couplings, spin 1/2 and 1
+    rng = ctx.rng
+    vals = [0.5, 1.0, 1.5, 2.0, -1.0, 0.25, -0.5]
+    for _ in range(ctx.n(12, 100)):
+        S = rng.choice([0.5, 1.0])
+        D = int(2 * S + 1)
+        cyc = rng.random() < 0.4
+        L = rng.randint(3 if cyc else 2, 4 if D == 3 else 5)
+        tab = spin_table(S)
+        bonds = [(i, i + 1) for i in range(L - 1)] + ([(L - 1, 0)] if cyc else [])
+        jx, jy, jz, bf = (rng.choice(vals) for _ in range(4))
+        if rng.random() < 0.3:
+            jy = jx
 
+        def explicit(coup, field):
+            H = np.zeros((D**L, D**L), dtype=complex)
+            for (u, v) in bonds:
+                for c, a in coup:
+                    H += c * embed_sites([tab[a], tab[a]], [u, v], L, D)
+            for i in range(L):
+                for c, a in field:
+                    H += c * embed_sites([tab[a]], [i], L, D)
+            return H
+
+        fam = [
+            ("heis", dict(j=(jx, jy, jz), bz=bf), explicit([(jx, "X"), (jy, "Y"), (jz, "Z")], [(-bf, "Z")])),
+            ("ising", dict(j=jz, bx=bf), explicit([(jz, "Z")], [(-bf, "X")])),
+            ("XY", dict(j=(jx, jy), bz=bf), explicit([(jx, "X"), (jy, "Y")], [(-bf, "Z")])),
+        ]
+        for name, kw, want in fam:
+            ctx.count(("family", name, S, L, cyc, repr(kw)), True)
+            ctx.bump(f"family:{name}:{'cyclic' if cyc else 'open'}:S={S}")
+            params = dict(L=L, S=S, cyclic=cyc, **kw)
+            try:
+                got = np.asarray(getattr(qtn, "MPO_ham_" + name)(L, S=S, cyclic=cyc, **kw).to_dense())
+                if got.shape != want.shape or not np.allclose(got, want, atol=1e-10):
+                    ctx.violation(f"models:MPO_ham_{name}:explicit_sum", f"MPO_ham_{name} differs from the explicit sum of embedded spin operators",
+                                  {"params": repr(params), "max_abs_diff": float(np.max(np.abs(got - want))) if got.shape == want.shape else None})
+                lh = getattr(qtn, "ham_1d_" + name)(L, S=S, cyclic=cyc, **kw)
+                tot = np.zeros_like(want)
+                for (a, b), h in lh.terms.items():
+                    tot += embed_pair(np.asarray(h), a, b, L, D)
+                if not np.allclose(tot, want, atol=1e-10):
+                    ctx.violation(f"models:ham_1d_{name}:explicit_sum", f"the terms of ham_1d_{name} do not sum to the explicit sum of embedded spin operators",
+                                  {"params": repr(params), "max_abs_diff": float(np.max(np.abs(tot - want)))})
+            except Exception as e:
+                ctx.violation(f"models:{name}:family:raised:{type(e).__name__}", f"MPO_ham_{name} / ham_1d_{name} raised {e}", {"params": repr(params)})
 
 
 # ----------------------------------------------------------------------------
@@ -1142,19 +1209,19 @@ def run(ctx):
         "modelled, not verified: numba int64/uint64 arithmetic (unbounded Z in the model; C(n,k) < 2^63 assumed), "
         "HilbertSpace site<->register maps, the builder's term processing and every matrix representation "
         "(those are exercised by the exact oracle stream only - a test, not a theorem)",
+        "hand-written model coq/C19/SpinHam.v of spin_ham_mpo_tensor's array layout, the which / cyclic end tensors "
+        "and build_mpo's per-site term lookup; tie = exact comparison in Coq with the arrays the code builds for "
+        "Gaussian-integer operator arrays; that an MPO denotes the product of its operator-valued site matrices "
+        "(trace for a periodic chain) is the reading of the MPO, checked numerically through to_dense()",
     ]
     ctx.assumptions += ["term-list semantics reference: ordered product of embedded named 2x2 operators with the "
                         "library's documented operator names; Jordan-Wigner string = Z on all lower registers"]
     ctx.check_props(["C19/Model.vo", "C19/Proofs.vo", "C19/SpinHam.vo", "C19/SpinHamProofs.vo", "C19/Props.v"])
-    ctx.stage(rank_correspondence)
-    ctx.stage(hilbert_api)
-    ctx.stage(representations)
-    ctx.stage(model_builders)
-    ctx.stage(spinham_tensor_stream)
-    ctx.stage(spinham_stream)
-    ctx.stage(matrix_generators)
-    ctx.stage(history_stream)
-    ctx.stage(ordering_stream)
+    for fn in (rank_correspondence, hilbert_api, representations, model_builders, spinham_tensor_stream,
+               spinham_stream, matrix_generators, history_stream, ordering_stream):
+        t0 = time.time()
+        ctx.stage(fn)
+        ctx.extra.setdefault("stage_seconds", {})[fn.__name__] = round(time.time() - t0, 1)
 
 
 def replay(ctx, path):
